@@ -32,6 +32,10 @@ def run(chk):
     iface_cov(chk, repo, d)
     misc_cov(chk, repo, d, eq)
     layout(chk, repo, d, eq)
+    # ---- R03.4 sibling implementation (interpreted solver package): its unit system and round trip
+    from . import legacy_solver
+    legacy_solver.nondimensional(chk, repo, X.Decider(seed=chk.seed, k=3), 'R03.4')
+    chk.floor('R03.4', 14)
     chk.floor('R03.1', 15); chk.floor('R03.2', 48); chk.floor('R03.3', 4)
 
 
